@@ -45,7 +45,8 @@ FUNCS = [
     ("ubxmessage.py", "UBXMessage.msg_cls"), ("ubxmessage.py", "UBXMessage.msg_id"), ("ubxmessage.py", "UBXMessage.msgmode"),
     ("ubxmessage.py", "UBXMessage._calc_num_repeats"), ("ubxmessage.py", "UBXMessage._set_attribute"),
     ("ubxmessage.py", "UBXMessage._set_attribute_group"), ("ubxmessage.py", "UBXMessage._set_attribute_single"),
-    ("ubxmessage.py", "UBXMessage._do_attributes"),
+    ("ubxmessage.py", "UBXMessage._do_attributes"), ("ubxmessage.py", "UBXMessage._get_dict"),
+    ("ubxmessage.py", "UBXMessage.identity"), ("ubxmessage.py", "UBXMessage.__init__"),
 ]
 
 
@@ -165,6 +166,9 @@ class Tr:
                 return (f"(.cmp2 .{ops[type(n.ops[0])]} {self.E(n.left)} {self.E(n.comparators[0])} "
                         f".{ops[type(n.ops[1])]} {self.E(n.comparators[1])})")
             self.bad(n, "comparison chain")
+        if isinstance(n, ast.Subscript) and isinstance(n.value, ast.List) and not isinstance(n.slice, ast.Slice):
+            # `[a, b, c][i]`: a list literal that is only indexed — carried as a tuple
+            return f"(.index (.tuple {self.lst([self.E(e) for e in n.value.elts])}) {self.E(n.slice)})"
         if isinstance(n, ast.Subscript):
             if isinstance(n.slice, ast.Slice):
                 if n.slice.step is not None:
@@ -175,6 +179,8 @@ class Tr:
             return f"(.index {self.E(n.value)} {self.E(n.slice)})"
         if isinstance(n, ast.Tuple):
             return f"(.tuple {self.lst([self.E(e) for e in n.elts])})"
+        if isinstance(n, ast.Dict) and not n.keys:
+            return f"(.call {self.nm('__emptydict__')} [] [] [])"      # `{}`: a host object
         if isinstance(n, ast.IfExp):
             return f"(.ife {self.E(n.test)} {self.E(n.body)} {self.E(n.orelse)})"
         if isinstance(n, ast.Call):
@@ -208,6 +214,9 @@ class Tr:
                 return f"(.call {self.nm(d)} {args} {kwn} {kwv})"
             if isinstance(n.func, ast.Attribute):
                 return f"(.mcall {self.E(n.func.value)} {self.nm(n.func.attr)} {args} {kwn} {kwv})"
+            if isinstance(n.func, ast.Name) and n.func.id in self.locals and not kws:
+                # calling a value held in a local variable (a function taken from a table): the host applies it
+                return f"(.call {self.nm('__call__')} {self.lst([self.E(n.func)] + [self.E(a) for a in n.args] + ([f'(.var {self.nm(self.kwparam)})'] if star else []))} [] [])"
             self.bad(n, "callee")
         self.bad(n, "expression")
 
@@ -269,6 +278,13 @@ class Tr:
                 for e in t.elts:
                     self.locals.add(e.id)
                 return r
+            if isinstance(t, ast.Tuple) and all(isinstance(e, ast.Attribute) for e in t.elts):
+                # `(o.a, o.b) = e`: unpack into temporaries, then store (one block, run unconditionally)
+                tmps = [f"__t{i}__" for i in range(len(t.elts))]
+                for x in tmps:
+                    self.locals.add(x)
+                sets = [f"(.setAttr {self.E(e.value)} {self.nm(e.attr)} (.var {self.nm(x)}))" for e, x in zip(t.elts, tmps)]
+                return f"(.if_ .tt {self.lst([f'(.assignT {self.lst([self.nm(x) for x in tmps])} {self.E(n.value)})'] + sets)} [])"
             if isinstance(t, ast.Attribute):
                 return f"(.setAttr {self.E(t.value)} {self.nm(t.attr)} {self.E(n.value)})"
             if (isinstance(t, ast.Subscript) and isinstance(t.value, ast.Name) and t.value.id in self.value_lists
